@@ -668,4 +668,278 @@ theorem delete_spelling (fuel : Nat) (cls : Cls) (kvs : List (Str × Val)) (lead
   | false => exact deleteLoop_spelled fuel _ _ _ c t' hs htne hdel (by omega)
   | true => exact deleteLoop_rec_spelled fuel _ _ _ c t' hs htne hdel (by omega)
 
+/-! ### an out-of-range index is a miss -/
+
+def OutOfRange (i : Int) (len : Nat) : Prop := i ≥ (len : Int) ∨ i < -(len : Int)
+
+theorem outOfRange_of_normIdx_none {i : Int} {len : Nat} (h : normIdx i len = Option.none) : OutOfRange i len := by
+  unfold normIdx at h
+  unfold OutOfRange
+  split at h
+  · split at h
+    · cases h
+    · omega
+  · split at h
+    · cases h
+    · omega
+
+theorem find_idx_miss_sp (fuel : Nat) (root : Val) (sp : Pos) (entry rl : Bool) (q : Pos) (found tok e : Str)
+    (i : Int) (rest : List Str) (cls : Cls) (xs : List Val)
+    (hq : getAt root q = some (.list cls xs)) (hk : IdxTok tok e i) (ho : OutOfRange i xs.length) :
+    findD (fuel + 1) root sp false entry (tok :: rest) (.at q) rl found
+      = .ok (root, { parent := .at q, nameIdx := some (bracket (intStr i)), value := Val.none, found := found,
+                     notFound := some (tok :: rest) }) := by
+  have hne : e.isEmpty = false := isEmpty_false_of_ne hk.ne
+  have ho' : (i ≥ (xs.length : Int) || i < -(xs.length : Int)) = true := by
+    unfold OutOfRange at ho; simpa using ho
+  rw [findD]
+  simp only [Bool.false_and, Bool.false_eq_true, if_false, valOf_at, hq, hk.split, List.isEmpty_nil,
+    Idx.truthy, hne, Bool.not_false, Bool.and_false, Bool.not_true, hk.notNew, hk.notStar, hk.eval]
+  simp only [ho', if_true]
+
+theorem findL_idx_miss (fuel : Nat) (root : Val) (sp : Pos) (rl : Bool) (q : Pos) (found tok e : Str)
+    (i : Int) (rest : List Str) (cls : Cls) (xs : List Val)
+    (hq : getAt root q = some (.list cls xs)) (hk : IdxTok tok e i) (ho : OutOfRange i xs.length) :
+    findL (fuel + 1) root sp (tok :: rest) (.at q) rl found
+      = .ok (root, { parent := .at q, nameIdx := some (bracket (intStr i)), value := Val.none, found := found,
+                     notFound := some (tok :: rest) }) := by
+  have ho' : (i ≥ (xs.length : Int) || i < -(xs.length : Int)) = true := by
+    unfold OutOfRange at ho; simpa using ho
+  rw [findL]
+  simp only [valOf_at, hq, hk.split, List.isEmpty_nil, Bool.not_true, Bool.false_eq_true, if_false,
+    hk.notStar, hk.eval]
+  simp only [ho', if_true]
+
+/-- the tokens walk along existing nodes and then hit an index that is out of range -/
+inductive MissAt : List Str → Val → Prop
+  | idx {tok e i rest cls xs} : IdxTok tok e i → OutOfRange i xs.length → MissAt (tok :: rest) (.list cls xs)
+  | keyIdx {tok k e i rest cls kvs cls' xs} : KeyIdxTok tok k e i → lookup k kvs = some (.list cls' xs) →
+      OutOfRange i xs.length → MissAt (tok :: rest) (.dict cls kvs)
+  | stepKey {tok rest cls kvs c} : KeyTok tok → lookup tok kvs = some c → MissAt rest c →
+      MissAt (tok :: rest) (.dict cls kvs)
+  | stepIdx {tok e i rest cls xs n c} : IdxTok tok e i → normIdx i xs.length = some n → xs[n]? = some c →
+      MissAt rest c → MissAt (tok :: rest) (.list cls xs)
+  | stepKeyIdx {tok k e i rest cls kvs cls' xs n c} : KeyIdxTok tok k e i → lookup k kvs = some (.list cls' xs) →
+      normIdx i xs.length = some n → xs[n]? = some c → MissAt rest c → MissAt (tok :: rest) (.dict cls kvs)
+
+theorem MissAt.ne_nil {toks : List Str} {v : Val} (h : MissAt toks v) : toks ≠ [] := by
+  cases h <;> simp
+
+theorem isFound_notFound_cons (r : Res) (t : Str) (ts : List Str) (h : r.notFound = some (t :: ts)) :
+    r.isFound = false := by
+  simp [Res.isFound, h]
+
+theorem find_miss_sp (root : Val) (rl : Bool) (sp : Pos) {toks : List Str} {v : Val} (h : MissAt toks v) :
+    ∀ (fuel : Nat) (q : Pos) (found : Str) (entry : Bool), getAt root q = some v → fuel ≥ 2 * toks.length →
+      ∃ r, findD fuel root sp false entry toks (.at q) rl found = .ok (root, r) ∧ r.isFound = false := by
+  induction h with
+  | @idx tok e i rest cls xs hk ho =>
+    intro fuel q found entry hq hf
+    obtain ⟨f, rfl⟩ : ∃ f, fuel = f + 1 := ⟨fuel - 1, by simp at hf; omega⟩
+    rw [find_idx_miss_sp f root sp entry rl q found tok e i rest cls xs hq hk ho]
+    exact ⟨_, rfl, isFound_notFound_cons _ _ _ rfl⟩
+  | @keyIdx tok k e i rest cls kvs cls' xs hk hl ho =>
+    intro fuel q found entry hq hf
+    obtain ⟨f, rfl⟩ : ∃ f, fuel = f + 2 := ⟨fuel - 2, by simp at hf; omega⟩
+    rw [find_keyidx_step_sp (f + 1) root sp entry rl q found tok k e i rest cls kvs _ hq hk hl]
+    have hq1 : getAt root (q ++ [Seg.key k]) = some (.list cls' xs) := by
+      rw [getAt_snoc, hq]; simp [child, hl]
+    rw [find_idx_miss_sp f root sp false rl (q ++ [Seg.key k]) _ (bracket e) e i rest cls' xs hq1 hk.inner ho]
+    exact ⟨_, rfl, isFound_notFound_cons _ _ _ rfl⟩
+  | @stepKey tok rest cls kvs c hk hl hm ih =>
+    intro fuel q found entry hq hf
+    obtain ⟨f, rfl⟩ : ∃ f, fuel = f + 1 := ⟨fuel - 1, by simp at hf; omega⟩
+    rw [find_key_step_sp f root sp entry rl q found tok rest cls kvs c hm.ne_nil hq hk hl]
+    have hq' : getAt root (q ++ [.key tok]) = some c := by
+      rw [getAt_snoc, hq]; simp [child, hl]
+    exact ih f _ _ false hq' (by simp at hf ⊢; omega)
+  | @stepIdx tok e i rest cls xs n c hk hn hx hm ih =>
+    intro fuel q found entry hq hf
+    obtain ⟨f, rfl⟩ : ∃ f, fuel = f + 1 := ⟨fuel - 1, by simp at hf; omega⟩
+    rw [find_idx_step_sp f root sp entry rl q found tok e i rest hm.ne_nil cls xs n hq hk hn]
+    have hq' : getAt root (q ++ [.idx n]) = some c := by
+      rw [getAt_snoc, hq]; simp [child, hx]
+    exact ih f _ _ false hq' (by simp at hf ⊢; omega)
+  | @stepKeyIdx tok k e i rest cls kvs cls' xs n c hk hl hn hx hm ih =>
+    intro fuel q found entry hq hf
+    obtain ⟨f, rfl⟩ : ∃ f, fuel = f + 2 := ⟨fuel - 2, by simp at hf; omega⟩
+    rw [find_keyidx_step_sp (f + 1) root sp entry rl q found tok k e i rest cls kvs _ hq hk hl]
+    have hq1 : getAt root (q ++ [Seg.key k]) = some (.list cls' xs) := by
+      rw [getAt_snoc, hq]; simp [child, hl]
+    rw [find_idx_step_sp f root sp false rl (q ++ [Seg.key k]) _ (bracket e) e i rest hm.ne_nil cls' xs n hq1 hk.inner hn]
+    have hq' : getAt root (q ++ [Seg.key k] ++ [Seg.idx n]) = some c := by
+      rw [getAt_snoc, hq1]; simp [child, hx]
+    exact ih f _ _ false hq' (by simp at hf ⊢; omega)
+
+theorem findL_miss (root : Val) (rl : Bool) (sp : Pos) {toks : List Str} {v : Val} (h : MissAt toks v) :
+    ∀ (fuel : Nat) (q : Pos) (found : Str), (∃ cls xs, v = .list cls xs) → getAt root q = some v →
+      fuel ≥ 2 * toks.length →
+      ∃ r, findL fuel root sp toks (.at q) rl found = .ok (root, r) ∧ r.isFound = false := by
+  induction h with
+  | @idx tok e i rest cls xs hk ho =>
+    intro fuel q found _ hq hf
+    obtain ⟨f, rfl⟩ : ∃ f, fuel = f + 1 := ⟨fuel - 1, by simp at hf; omega⟩
+    rw [findL_idx_miss f root sp rl q found tok e i rest cls xs hq hk ho]
+    exact ⟨_, rfl, isFound_notFound_cons _ _ _ rfl⟩
+  | keyIdx _ _ _ => intro _ _ _ hl; obtain ⟨_, _, h⟩ := hl; cases h
+  | stepKey _ _ _ _ => intro _ _ _ hl; obtain ⟨_, _, h⟩ := hl; cases h
+  | stepKeyIdx _ _ _ _ _ _ => intro _ _ _ hl; obtain ⟨_, _, h⟩ := hl; cases h
+  | @stepIdx tok e i rest cls xs n c hk hn hx hm ih =>
+    intro fuel q found _ hq hf
+    obtain ⟨f, rfl⟩ : ∃ f, fuel = f + 1 := ⟨fuel - 1, by simp at hf; omega⟩
+    have hq' : getAt root (q ++ [.idx n]) = some c := by
+      rw [getAt_snoc, hq]; simp [child, hx]
+    have hf' : f ≥ 2 * rest.length := by simp at hf; omega
+    cases c with
+    | dict dc kvs =>
+      rw [findL_idx_step_dict f root sp rl q found tok e i rest hm.ne_nil cls xs n dc kvs hq hk hn hx]
+      exact find_miss_sp root rl (q ++ [.idx n]) hm f (q ++ [.idx n]) _ true hq' hf'
+    | list lc ys =>
+      rw [findL_idx_step_list f root sp rl q found tok e i rest hm.ne_nil cls xs n lc ys hq hk hn hx]
+      exact ih f (q ++ [.idx n]) _ ⟨lc, ys, rfl⟩ hq' hf'
+    | _ => cases hm
+
+/-- the steps walk along existing nodes and then index a list out of range -/
+def stepsMiss : Val → List StepSp → Bool
+  | .dict _ kvs, .key k :: rest =>
+    match lookup k kvs with
+    | some c => stepsMiss c rest
+    | Option.none => false
+  | .list _ xs, .idx e _ :: rest =>
+    match normIdx e.val xs.length with
+    | Option.none => true
+    | some n =>
+      match xs[n]? with
+      | some c => stepsMiss c rest
+      | Option.none => false
+  | _, _ => false
+
+theorem stepsMiss_key_inv {v : Val} {k : Str} {rest : List StepSp} (h : stepsMiss v (.key k :: rest) = true) :
+    ∃ cls kvs x, v = .dict cls kvs ∧ lookup k kvs = some x ∧ stepsMiss x rest = true := by
+  cases v with
+  | dict cls kvs =>
+    simp only [stepsMiss] at h
+    cases hl : lookup k kvs with
+    | none => simp [hl] at h
+    | some x => exact ⟨cls, kvs, x, rfl, hl, by simpa [hl] using h⟩
+  | _ => simp [stepsMiss] at h
+
+theorem stepsMiss_idx_inv {v : Val} {e : IdxSp} {sep : Bool} {rest : List StepSp}
+    (h : stepsMiss v (.idx e sep :: rest) = true) :
+    ∃ cls xs, v = .list cls xs ∧ (OutOfRange e.val xs.length ∨
+      ∃ n y, normIdx e.val xs.length = some n ∧ xs[n]? = some y ∧ stepsMiss y rest = true) := by
+  cases v with
+  | list cls xs =>
+    simp only [stepsMiss] at h
+    refine ⟨cls, xs, rfl, ?_⟩
+    cases hn : normIdx e.val xs.length with
+    | none => exact Or.inl (outOfRange_of_normIdx_none hn)
+    | some n =>
+      cases hx : xs[n]? with
+      | none => simp [hn, hx] at h
+      | some y => exact Or.inr ⟨n, y, rfl, hx, by simpa [hn, hx] using h⟩
+  | _ => simp [stepsMiss] at h
+
+theorem stepsMiss_nil (v : Val) : stepsMiss v [] = false := by
+  cases v <;> rfl
+
+theorem missAt_steps : ∀ (steps : List StepSp) (v : Val), PlainSteps steps → stepsMiss v steps = true →
+    MissAt (toksOf steps) v
+  | [], v, _, h => by rw [stepsMiss_nil] at h; cases h
+  | [.key k], v, hp, h => by
+    obtain ⟨cls, kvs, x, rfl, hl, hr⟩ := stepsMiss_key_inv h
+    rw [stepsMiss_nil] at hr; cases hr
+  | .key k :: .key k2 :: rest, v, hp, h => by
+    obtain ⟨cls, kvs, x, rfl, hl, hr⟩ := stepsMiss_key_inv h
+    have ih := missAt_steps (.key k2 :: rest) x hp.2 hr
+    rw [toksOf_key_cons k _ (by intro e r h; cases h)]
+    exact .stepKey hp.1.keyTok hl ih
+  | .key k :: .idx e true :: rest, v, hp, h => by
+    obtain ⟨cls, kvs, x, rfl, hl, hr⟩ := stepsMiss_key_inv h
+    have ih := missAt_steps (.idx e true :: rest) x hp.2 hr
+    rw [toksOf_key_cons k _ (by intro e r h; cases h)]
+    exact .stepKey hp.1.keyTok hl ih
+  | .key k :: .idx e false :: rest, v, hp, h => by
+    obtain ⟨cls, kvs, x, rfl, hl, hr⟩ := stepsMiss_key_inv h
+    obtain ⟨cls', xs, rfl, ho | ⟨n, y, hn, hx, hr2⟩⟩ := stepsMiss_idx_inv hr
+    · exact .keyIdx (e.keyIdxTok hp.1) hl ho
+    · exact .stepKeyIdx (e.keyIdxTok hp.1) hl hn hx (missAt_steps rest y hp.2 hr2)
+  | .idx e sep :: rest, v, hp, h => by
+    obtain ⟨cls', xs, rfl, ho | ⟨n, y, hn, hx, hr2⟩⟩ := stepsMiss_idx_inv h
+    · exact .idx e.idxTok ho
+    · exact .stepIdx e.idxTok hn hx (missAt_steps rest y hp hr2)
+
+/-- what `_get` does with a miss: item access raises IndexError, `get`/`first` give the default -/
+def missResult (root dflt : Val) (raise : Bool) : Val × PyM Val :=
+  if raise then (root, .error .IndexError) else (root, .ok dflt)
+
+theorem getCore_miss_dict (fuel : Nat) (cls : Cls) (kvs : List (Str × Val)) (lead : Lead)
+    (steps : List StepSp) (d : Val) (raise rl : Bool)
+    (hp : PlainSteps steps) (hmiss : stepsMiss (.dict cls kvs) steps = true)
+    (hf : fuel ≥ 2 * steps.length) :
+    getCore fuel (.dict cls kvs) (renderSp lead steps) d raise rl = missResult (.dict cls kvs) d raise := by
+  have hm := missAt_steps steps _ hp hmiss
+  have htok := tokenize_renderSp lead steps hp
+  have hlen := toksOf_length_le steps
+  obtain ⟨r, hr, hnf⟩ := find_miss_sp (.dict cls kvs) rl [] hm fuel [] slash true rfl (by omega)
+  -- the first step is a key and there is a second step
+  cases steps with
+  | nil => rw [stepsMiss_nil] at hmiss; cases hmiss
+  | cons s r0 =>
+    cases s with
+    | idx e sep => simp [stepsMiss] at hmiss
+    | key k =>
+      obtain ⟨hk, _⟩ := hp
+      obtain ⟨_, _, x0, hv, _, hr0⟩ := stepsMiss_key_inv hmiss
+      cases r0 with
+      | nil => rw [stepsMiss_nil] at hr0; cases hr0
+      | cons s2 r2 =>
+        have hbody : dropSlash (renderSteps (.key k :: s2 :: r2)) = k ++ renderSteps (s2 :: r2) := by
+          simp [renderSteps_cons, renderStep, dropSlash]
+        obtain ⟨x, k', rfl⟩ : ∃ x k', k = x :: k' := by
+          cases k with
+          | nil => exact absurd rfl hk.ne
+          | cons x k' => exact ⟨x, k', rfl⟩
+        have hxq : x ≠ '?' := plainChar_ne_q (hk.chars x (by simp))
+        have hq : startsWith (renderSp lead (.key (x :: k') :: s2 :: r2)) ['?'] = false := by
+          unfold renderSp; rw [hbody]
+          cases lead <;> simp [leadStr, startsWith, hxq]
+        have hpc : hasPathChar (renderSp lead (.key (x :: k') :: s2 :: r2)) = true := by
+          obtain ⟨ch, rs, hrs, hch⟩ := renderStep_head s2
+          refine hasPathChar_of_mem (ch := ch) ?_ hch
+          unfold renderSp; rw [hbody, renderSteps_cons, hrs]; simp
+        simp only [getCore, hq, Bool.false_eq_true, if_false, hpc, if_true, htok]
+        rw [hr]
+        simp only [hnf, Bool.false_eq_true, if_false, missResult]
+
+theorem getCore_miss_list (fuel : Nat) (cls : Cls) (xs : List Val) (lead : Lead)
+    (steps : List StepSp) (d : Val) (raise rl : Bool)
+    (hp : PlainSteps steps) (hmiss : stepsMiss (.list cls xs) steps = true)
+    (hf : fuel ≥ 2 * steps.length) :
+    getCore fuel (.list cls xs) (renderSp lead steps) d raise rl = missResult (.list cls xs) d raise := by
+  have hm := missAt_steps steps _ hp hmiss
+  have htok := tokenize_renderSp lead steps hp
+  have hlen := toksOf_length_le steps
+  obtain ⟨r, hr, hnf⟩ := findL_miss (.list cls xs) rl [] hm fuel [] slash ⟨cls, xs, rfl⟩ rfl (by omega)
+  cases steps with
+  | nil => rw [stepsMiss_nil] at hmiss; cases hmiss
+  | cons s r0 =>
+    cases s with
+    | key k => simp [stepsMiss] at hmiss
+    | idx e sep =>
+      have hbody : dropSlash (renderSteps (.idx e sep :: r0)) = '[' :: (e.text ++ ']' :: renderSteps r0) := by
+        cases sep <;> simp [renderSteps_cons, renderStep, dropSlash, bracket]
+      have hq : startsWith (renderSp lead (.idx e sep :: r0)) ['?'] = false := by
+        unfold renderSp; rw [hbody]
+        cases lead <;> simp [leadStr, startsWith]
+      have hpc : hasPathChar (renderSp lead (.idx e sep :: r0)) = true := by
+        refine hasPathChar_of_mem (ch := '[') ?_ (Or.inr rfl)
+        unfold renderSp; rw [hbody]; simp
+      have hxe : (renderSp lead (.idx e sep :: r0)).isEmpty = false := by
+        unfold renderSp; rw [hbody]
+        cases lead <;> simp [leadStr]
+      simp only [getCore, hxe, Bool.false_eq_true, if_false, hq, hpc, if_true, htok]
+      rw [hr]
+      simp only [hnf, Bool.false_eq_true, if_false, missResult]
+
 end N0.XPath
